@@ -350,7 +350,7 @@ Proof.
     destruct log' as [|? ?]; [|discriminate].
     destruct (outcome_eqb exc (if e then OKeyError else OOk)) eqn:Ee; [|discriminate].
     injection Hs as <-.
-    rewrite okwf_frame_end in Hwf.
+    apply okwf_frame_end in Hwf.
     destruct (tick_rel s t b dt s1 W (0 <=? dt) HR HI1 Hst HW Hpc Hpv Hdn) as [HI2 HR2].
     pose proof (tick_g s t b dt log s1 W (0 <=? dt) HI HG Ew HI1) as HG2.
     pose proof (loop_g sc _ _ _ _ _ _ _ _ HI2 HR2 HG2 El Hwf) as HG3.
